@@ -1529,6 +1529,9 @@ class Exec:
                 return o.fields[attr]
             q = self.method_of(o.cls, attr)
             if q:
+                _, fn = self.prog.function(q)
+                if any(isinstance(d, ast.Name) and d.id == "staticmethod" for d in fn.decorator_list):
+                    return FuncRef(q)
                 return BoundMethod(o, q)
             raise VCError(f"line {getattr(node, 'lineno', '?')}: object of class {o.cls} has no field/method {attr} (shape in the sidecar is incomplete)")
         if isinstance(o, ModuleRef):
